@@ -652,6 +652,14 @@ func envTrouble(ex exSpec, off, on runOut) bool {
 	return off.Hang || bad(off.Res.Err) || (slow(on) && !slow(off))
 }
 
+type notifyBody struct {
+	io.Reader
+	once sync.Once
+	ch   chan struct{}
+}
+
+func (b *notifyBody) Close() error { b.once.Do(func() { close(b.ch) }); return nil }
+
 var debugW = os.Stderr
 
 func debugSlow(off, on runOut) bool {
@@ -695,6 +703,13 @@ func runClient(c *req.Client, url string, ex exSpec, id string, cfg *dumpCfg, wc
 		rq.SetBodyBytes(ex.body)
 	case "reader":
 		rq.SetBody(io.MultiReader(bytes.NewReader(ex.body))) // no WriterTo, unknown length
+	}
+	var bodyClosed chan struct{}
+	if ex.Abort == "h3-partial" {
+		// HTTP/3 writes the body from a goroutine of its own that may still be running (and
+		// dumping) when the early response has been returned; it closes the body when it is done
+		bodyClosed = make(chan struct{})
+		rq.SetBody(&notifyBody{Reader: bytes.NewReader(ex.body), ch: bodyClosed})
 	}
 	if cfg != nil && cfg.Request != nil {
 		rq.SetDumpOptions(cfg.Request.build(1, s)).EnableDump()
@@ -751,6 +766,17 @@ func runClient(c *req.Client, url string, ex exSpec, id string, cfg *dumpCfg, wc
 	out.Elapsed = time.Since(t0)
 	if !out.Hang {
 		out.Res = mkResult(got.resp, got.err)
+		// an upload that broke off: the writing side may outlive the call; wait until it is done
+		// (h1: writeRequest has returned - WroteRequest; h3: the body was closed) before looking
+		switch {
+		case ex.Abort == "h1-close":
+			wc.waitFor(0)
+		case bodyClosed != nil:
+			select {
+			case <-bodyClosed:
+			case <-time.After(5 * time.Second):
+			}
+		}
 		out.Sink = finishDump(c, got.resp, rq, cfg, s)
 	} else {
 		out.Res = callRes{Err: "hang"}
